@@ -18,6 +18,8 @@ type VDB struct {
 	// FaultCommits adds the "fail" answer to commit gates; FaultSets gates every Set inside a transaction with {ok, fail}.
 	FaultCommits bool
 	FaultSets    bool
+	// FaultKeys is the universe of keys whose write inside a transaction can be made to fail (see NewTransaction).
+	FaultKeys []string
 	// OpHook, when set, is called for every store operation (op = "set"/"commit"/"get"/"keys"); returning an error fails it.
 	// Used by the sequential (E2) harnesses to inject "the k-th store operation fails".
 	OpHook func(op, key string) error
@@ -54,6 +56,7 @@ type vtxn struct {
 	order   []string
 	done    bool
 	failed  bool
+	failKey string
 }
 
 type vtxnKey struct{}
@@ -80,6 +83,18 @@ func (d *VDB) NewTransaction(ctx context.Context, _ bool) (database.Transaction,
 		}
 	}
 	t := &vtxn{db: d, changes: map[string][]byte{}}
+	if d.FaultSets && d.W != nil && len(d.FaultKeys) > 0 {
+		// The fault plan of the transaction is chosen when it begins ("the write of key K inside this transaction
+		// fails"), not when the write happens: the engine writes a batch in Go map iteration order, which is random,
+		// and the enumeration must not depend on it.
+		menu := []string{"ok"}
+		for _, k := range d.FaultKeys {
+			menu = append(menu, "failset:"+k)
+		}
+		if a := d.W.Gate(nil, "db.tx", menu...); strings.HasPrefix(a, "failset:") {
+			t.failKey = strings.TrimPrefix(a, "failset:")
+		}
+	}
 	return t, database.ContextWithTransaction(ctx, t), nil
 }
 
@@ -100,11 +115,9 @@ func (d *VDB) Set(ctx context.Context, key string, value []byte) error {
 		}
 	}
 	if t := d.txn(ctx); t != nil {
-		if d.FaultSets && d.W != nil {
-			if a := d.W.Gate(nil, "db.set["+key+"]", "ok", "fail"); a != "ok" {
-				d.W.Log("db", "setfail", -1, key)
-				return errInjected
-			}
+		if t.failKey != "" && t.failKey == key {
+			d.W.Log("db", "setfail", -1, key)
+			return errInjected
 		}
 		if _, ok := t.changes[key]; !ok {
 			t.order = append(t.order, key)
@@ -121,7 +134,7 @@ func (d *VDB) Set(ctx context.Context, key string, value []byte) error {
 		if d.FaultCommits {
 			menu = append(menu, "fail")
 		}
-		if a := d.W.Gate(nil, "db.put["+key+"]", menu...); a != "ok" {
+		if a := d.W.Gate(nil, "db.put["+key+"]", menu...); a != "ok" && a != AnsAbort {
 			d.W.Log("db", "putfail", -1, key)
 			return errInjected
 		}
@@ -213,7 +226,9 @@ func (t *vtxn) Commit() error {
 		if d.FaultCommits {
 			menu = append(menu, "fail")
 		}
-		if a := d.W.Gate(nil, "db.commit["+strings.Join(keys, ",")+"]", menu...); a != "ok" {
+		// named by ordinal, not by key set: which connectors share a batch at start-up is decided by the Go scheduler
+		// (concurrent Opens racing to the persister); the key set is in the logged event, not in the choice name
+		if a := d.W.Gate(nil, "db.commit", menu...); a != "ok" && a != AnsAbort {
 			t.done = true
 			d.W.Log("db", "commitfail", -1, strings.Join(keys, ","))
 			return errInjected
